@@ -361,7 +361,7 @@ def _z3_check(hyps, goal, cfg, rlimit, hints=()):
     return r, s
 
 
-def discharge(ob: Obligation, rlimit=Z3_RLIMIT, use_cvc5=True):
+def discharge(ob: Obligation, rlimit=Z3_RLIMIT, use_cvc5=True, light=False):
     """-> (verdict, backend, seconds, model_or_reason)   verdict in {'unsat','sat','unknown'}"""
     t0 = time.time()
     if z3.is_true(z3.simplify(ob.goal)):
@@ -401,7 +401,7 @@ def discharge(ob: Obligation, rlimit=Z3_RLIMIT, use_cvc5=True):
         # stage 2: all hypotheses, solver portfolio
         verdict = None
         last = None
-        for cfg, rl in PORTFOLIO:
+        for cfg, rl in (PORTFOLIO[:2] if light else PORTFOLIO):
             r, s = _z3_check(full_hyps, goal, cfg, rl, ob.hints)
             last = s
             if r == z3.unsat:
@@ -416,7 +416,7 @@ def discharge(ob: Obligation, rlimit=Z3_RLIMIT, use_cvc5=True):
         if verdict == "unsat":
             continue
         reason = last.reason_unknown()
-        if use_cvc5 and reduced_model is None:
+        if use_cvc5 and reduced_model is None and not light:
             v, why = run_cvc5(last.to_smt2())
             if v == "unsat":
                 backend_used = "z3+cvc5"
@@ -534,11 +534,15 @@ def verify_function(world, contract, use_cvc5=True, known=(), only_prop=None, pa
     if part is not None:  # (i, n): this worker discharges every n-th obligation (the exploration is repeated per worker)
         obligations = [ob for k, ob in enumerate(obligations) if k % part[1] == part[0]]
     pre_verdicts = discharge_batches(obligations)
+    failed_names = set()
     for ob in obligations:
         if id(ob) in pre_verdicts:
             verdict, backend, dt, model = "unsat", "z3", pre_verdicts[id(ob)], None
         else:
-            verdict, backend, dt, model = discharge(ob, use_cvc5=use_cvc5)
+            # once an obligation has failed on one path, its other path instances get the light portfolio only
+            verdict, backend, dt, model = discharge(ob, use_cvc5=use_cvc5, light=ob.name in failed_names)
+            if verdict != "unsat":
+                failed_names.add(ob.name)
         solver_time += dt
         backends.setdefault(backend, [0, 0.0])
         backends[backend][0] += 1
